@@ -363,14 +363,19 @@ impl Database {
             .record_builder_state
             .borrow_mut()
             .take()
-            .expect("record_builder_state must be initialized in CachedInsertPlan");
+            .unwrap_or_else(|| {
+                crate::records::RecordBuilderState::new(&plan.record_schema)
+            });
         let mut record_builder = state.into_builder(&plan.record_schema);
 
         let mut buffer_guard = plan.record_buffer.borrow_mut();
         buffer_guard.clear();
-        OwnedValue::build_record_into_buffer(params, &mut record_builder, &mut buffer_guard)?;
+        let built =
+            OwnedValue::build_record_into_buffer(params, &mut record_builder, &mut buffer_guard);
 
+        // the plan keeps its builder state also when these parameters were rejected
         *plan.record_builder_state.borrow_mut() = Some(record_builder.into_state());
+        built?;
 
         #[cfg(feature = "timing")]
         RECORD_BUILD_NS.fetch_add(record_start.elapsed().as_nanos() as u64, Ordering::Relaxed);
